@@ -66,13 +66,15 @@ def run(cmd, **kw):
 
 
 def prune_cache(keep):
-    """keep the cache small: remove build dirs other than `keep` (disk is limited)"""
+    """keep the cache small (disk is limited): the two most recently used build dirs survive besides `keep`,
+    so that a concurrent check working on another tree state does not lose its binaries"""
     if not os.path.isdir(CACHE):
         return
-    for d in os.listdir(CACHE):
-        p = os.path.join(CACHE, d)
-        if d.startswith("build-") and p != keep:
-            shutil.rmtree(p, ignore_errors=True)
+    ds = [os.path.join(CACHE, d) for d in os.listdir(CACHE) if d.startswith("build-")]
+    ds = [d for d in ds if d != keep]
+    ds.sort(key=lambda d: os.path.getmtime(d), reverse=True)
+    for d in ds[2:]:
+        shutil.rmtree(d, ignore_errors=True)
 
 
 def build_native():
@@ -82,7 +84,8 @@ def build_native():
     key = tree_hash([hsrc])
     bdir = os.path.join(CACHE, "build-" + key)
     stamp = os.path.join(bdir, "OK")
-    if os.path.exists(stamp):
+    if os.path.exists(stamp) and os.path.exists(os.path.join(bdir, "harness")):
+        os.utime(bdir, None)
         return bdir
     prune_cache(bdir)
     shutil.rmtree(bdir, ignore_errors=True)
